@@ -27,7 +27,11 @@ Definition apply_data (D : nat) (o : iop) (g g' : dgrid (K:=QcF)) (im : qimg) : 
     | OResize size a => d_interp (K:=QcF) floorQ D (flag_of a g) size im
     | OReshape shape a => d_interp (K:=QcF) floorQ D (flag_of a g) (rev shape) im
     | ODown L dims ms a => d_downsample (K:=QcF) floorQ D L dims ms (flag_of a g) kern im
-    | OUp L dims a => d_upsample (K:=QcF) floorQ D L dims (flag_of a g) im
+    | OUp L dims a =>
+        (* ImageBatch.upsample: core.image.upsample doubles the tensor shape; when the upsampled GRID has another size (fractional
+           size attribute) the data is resized to the grid's size instead *)
+        if eqshape (up_size L dims (ishape im)) (nZ (K:=QcF) ceilQc g') then d_upsample (K:=QcF) floorQ D L dims (flag_of a g) im
+        else d_interp (K:=QcF) floorQ D (flag_of a g) (nZ (K:=QcF) ceilQc g') im
     | OPyr L dims ms level => im     (* pyramid levels are compared through their own resize/downsample steps *)
     | OResample spacing ms => d_resample (K:=QcF) floorQ D (sp g) spacing (nZ (K:=QcF) ceilQc g') im
     | OCrop num => d_crop (K:=QcF) D cv num im
